@@ -5,6 +5,11 @@ V = os.path.dirname(os.path.dirname(os.path.abspath(__file__)))
 ALL = ['C%02d' % i for i in range(1, 21)]
 
 CLAIMED = {
+ 'C03': dict(
+   technique='Lean 4 proof: ring identities + Mathlib calculus on definitions regenerated from path.py by a tracing translator (generic and coincident-control-point traces)',
+   text='Proof. point/poly/poly1d call/points/poly2bez/bpoints2bezier/bez2poly/derivative(n=1..5) of Line, QuadraticBezier, CubicBezier are traced from the running code on opaque ring elements every run and proved equal to the Bernstein form, its monomial coefficients and their formal derivatives over every field of characteristic 0; the formal derivative is proved to be the analytic n-th derivative (iteratedDeriv) over R and C, incl. real parameter with complex control points, and to vanish for all n above the degree. Coincident control-point configurations are traced as separate cases. A float sampler with mutate-then-query sequences covers rounding and object state.',
+   note='Trusted: Lean kernel + {propext, Classical.choice, Quot.sound}; translator (self-checked); numpy.poly1d object-array algebra; exact-arithmetic reading (IEEE rounding only sampled). derivative(t,n) for n>5 is covered by the all-n theorem on the formal derivative plus the sampler, not by a trace.',
+   ref='7 C03'),
  'C19': dict(
    technique='Lean 4 proof: per-degree ring identities on definitions regenerated from bezier.py by a tracing translator; list-induction theorems on a hand model of the polyroots filter tied by exact (rational) correspondence',
    text='Proof. For degrees 0..8 the traced bezier_point / bezier2polynomial / polynomial2bezier / split_bezier / halve_bezier are proved equal to the Bernstein form over every field of characteristic 0 (369 theorems, regenerated definitions, `ring`). The root filter after np.roots is proved to keep every isolated candidate exactly once and to return a pairwise non-close sublist, for all lists and all closeness relations; the model is executed against the real polyroots01/rational_limit on exact rationals every run. A float sampler on the real code backs the clauses proof cannot reach (rounding, np.roots).',
